@@ -319,6 +319,28 @@ def run_yin(cx):
         return "yin:%s-%s:%s" % (t[2], "printed" if m != "mut" else "malformed", reply[0] if reply[0] == "ok" else reply[1])
 
     ri2, rm2 = cx.differential(COMP, reqs, HARNESS, kind=kind2)
+    # `YinOk` (Lean: `Yin.extOk` / `Yin.yinOkList`, the hypothesis of yin_ext_roundtrip / yin_stmt_roundtrip) evaluated by the model on
+    # every generated instance and every generated statement forest
+    okreq, okmeta = [], []
+    for fmt, lvl, po, e in ext_cases:
+        okreq.append("%d %s extok %s" % (len(okreq), COMP, ser_ext(e))); okmeta.append(("ext", ser_ext(e)))
+    for c in cases:
+        if c.startswith("prstmt "):
+            okreq.append("%d %s yinok %s" % (len(okreq), COMP, c.split()[3])); okmeta.append(("stmts", c.split()[3]))
+    rok = cx.run_model(okreq)
+    lean_ok, nyes = {}, {"ext": [0, 0], "stmts": [0, 0]}
+    for i, (what, key) in enumerate(okmeta):
+        r = rok.get(str(i), ["err", "NoReply"])
+        if r[0] != "ok":
+            cx.fail(COMP, "the model did not evaluate YinOk", {"request": okreq[i][:300], "reply": r})
+            continue
+        v = r[1] == "1"
+        if what == "ext":
+            lean_ok[key] = v
+        nyes[what][0] += v; nyes[what][1] += 1
+        cx.count(("yinok", what, key), True, "yin:YinOk:%s:%s" % (what, "holds" if v else "not"))
+    cx.notes.append("yin: YinOk holds on %d of %d generated extension instances and %d of %d generated statement forests" %
+                    (nyes["ext"][0], nyes["ext"][1], nyes["stmts"][0], nyes["stmts"][1]))
     # the law, on libyang's replies
     for i, (what, e, doc) in enumerate(meta):
         if what != "resolve":
@@ -332,8 +354,11 @@ def run_yin(cx):
             got = parse_ser(r[3])
             vis = [c for c in got if not c[3] & (LYS_YIN_ATTR | LYS_YIN_ARGUMENT)]
             ok = unhex(r[1]) == name and (None if r[2] == "N" else unhex(r[2])) == arg and vis == want_kids
-        cx.count(("yin-rt", doc, an, ye), True, "yin:roundtrip:%s:%s" % ("covered" if not cov else "outside(" + "+".join(cov) + ")", "holds" if ok else "fails"))
-        if not ok and set(cov) <= {"F36", "F86", "F340"}:
+        lok = lean_ok.get(ser_ext(e), False)
+        if lok and cov:
+            cx.fail(COMP, "YinOk (Lean) holds although the generator's own reasons say the instance is outside", {"ext": ser_ext(e), "outside": cov})
+        cx.count(("yin-rt", doc, an, ye), True, "yin:roundtrip:%s:%s" % ("YinOk" if lok else "covered" if not cov else "outside(" + "+".join(cov) + ")", "holds" if ok else "fails"))
+        if not ok and (lok or set(cov) <= {"F36", "F86", "F340"}):
             head_ok = r[0] == "ok" and unhex(r[1]) == name and (None if r[2] == "N" else unhex(r[2])) == arg
             cx.fail(COMP, "yin_stmt_roundtrip: libyang's YIN parser does not return the extension instance its YIN printer wrote",
                     {"law": "yin_stmt_roundtrip", "ext": ser_ext(e), "doc_hex": hexs(doc), "reply": r[:3], "outside": cov, "head_ok": head_ok,
